@@ -190,6 +190,9 @@ def check_refusals():
         (lambda: Recipe((SubRecipe(Step(SVS("s"), (Reference(single),)), (SVS("out"),)),)), "ReferenceToInvalidSubRecipeError"),
         (lambda: Recipe((SubRecipe(Reference(single), (SVS("out"),)), single)), "ReferenceToInvalidSubRecipeError"),
         (lambda: Recipe((single, SubRecipe(Step(SVS("s"), (Reference(single),)), (SVS("out"),)))), "ok"),
+        (lambda: Recipe((single, Reference(SubRecipe(Ingredient(SVS("other body")), (SVS("x"),))))), "ReferenceToInvalidSubRecipeError"),
+        (lambda: Recipe((multi, Reference(SubRecipe(Ingredient(SVS("b")), (SVS("x"), SVS("y"))), 1))), "ReferenceToInvalidSubRecipeError"),
+        (lambda: Recipe((Reference(SubRecipe(Ingredient(SVS("a")), (SVS("x"),), False)),), Recipe((single,))), "ReferenceToInvalidSubRecipeError"),
         (lambda: Recipe((single, Reference(single))), "ok"),
         (lambda: Recipe((Reference(single),), Recipe((single,))), "ok"),
         (lambda: Recipe((multi, Step(SVS("s"), (Reference(multi, 1), Reference(multi, 0))))), "ok"),
